@@ -24,7 +24,7 @@ ENGINE = "E1"
 FUNCTIONS = ["ioflo.base.wanting.Want*.action", "ioflo.base.fiating.Fiat*.action", "ioflo.base.skedding.Skedder.run",
              "ioflo.base.framing.Framer.makeRunner (control/status machine)", "ioflo.base.building.Builder.build (concrete text)"]
 ASSUMPTIONS = [
-    "part A: all periods zero (every scheduled tasker is due every tick); workers are single-frame framers; two bidders, each one bid at a symbolic tick in [1,3]; a framer Z that bids stop/abort/run on itself in its first frame (its own start tick); "
+    "part A: all periods zero (every scheduled tasker is due every tick); workers are single-frame framers; in the `guarded` shards the inactive worker B has an entry guard on a share that is fresh symbolic in [0,1] in ticks 0-4 and 1 afterwards (a start that fails must leave it stopped until the next bid); two bidders, each one bid at a symbolic tick in [1,3]; a framer Z that bids stop/abort/run on itself in its first frame (its own start tick); "
     "the run is ended by a controller bidding stop all at tick 5; the final abort sweep is excluded from 'controls received'",
     "part B: slave framer with two frames and a guarded first frame; up to three fiats in consecutive master frames (one per tick); guard share symbolic per tick",
     "selectors: bid verbs, targets (A, B, me), declaration positions; fiat verbs.  symbolic: bid ticks, guard values",
@@ -61,14 +61,14 @@ def verifBidMark(self, **kwa):
     EVENTS.append(("bid", fr.framer.name, fr.name, self.store.stamp, False))
 
 
-def script_a(pos, bids, selfbid="stop"):
+def script_a(pos, bids, selfbid="stop", guarded=False):
     """pos: declaration order of the four framers; bids: {bidder: (verb, target)}"""
     L = ["house h"]
     for nm in pos:
         if nm == "A":
             L += ["  framer A be active first w", "    frame w", "      do verif record at recur"]
         elif nm == "B":
-            L += ["  framer B be inactive first w", "    frame w", "      do verif record at recur"]
+            L += ["  framer B be inactive first w", "    frame w"] + (["      let me if gB >= 1"] if guarded else []) + ["      do verif record at recur"]
         else:
             verb, target = bids[nm]
             L += ["  framer %s be active first b0" % nm, "    frame b0", "      go b1 if recurred >= goal_%s" % nm,
@@ -82,7 +82,7 @@ def script_a(pos, bids, selfbid="stop"):
 PERMS = [["X", "A", "B", "Y"], ["A", "X", "Y", "B"], ["X", "Y", "A", "B"], ["A", "B", "X", "Y"], ["B", "Y", "A", "X"], ["Y", "B", "X", "A"]]
 
 
-def h_bids(sym, perm, vx=None, vy=None, tx=None, ty=None):
+def h_bids(sym, perm, vx=None, vy=None, tx=None, ty=None, guarded=False):
     from ioflo.base import skedding
     pos = PERMS[perm]
     vx = sym.choice("verb_X", 5) if vx is None else vx
@@ -91,24 +91,33 @@ def h_bids(sym, perm, vx=None, vy=None, tx=None, ty=None):
     ty = sym.choice("target_Y", 3) if ty is None else ty
     targets = ["A", "B", "me"]
     bids = dict(X=(VERBS[vx], targets[tx]), Y=(VERBS[vy], targets[ty]))
-    selfbid = ["stop", "abort", "run"][sym.choice("selfbid", 3)]     # Z bids on itself in its first frame, i.e. in its own start tick
+    selfbid = ["stop", "abort", "run"][0 if guarded else sym.choice("selfbid", 3)]     # Z bids on itself in its first frame, i.e. in its own start tick
     bids["Z"] = (selfbid, "me")
-    text = script_a(pos, bids, selfbid)
+    text = script_a(pos, bids, selfbid, guarded)
     with flogen.notrace(sym):
         houses = flogen.build_text(text)
     house = houses[0]
     store = house.store
     gx = sym.int("goal_X", 1, 3)
-    gy = sym.int("goal_Y", 1, 3)
+    gy = 1 if guarded else sym.int("goal_Y", 1, 3)
     store.create("goal_X").value = gx
     store.create("goal_Y").value = gy
     for t in house.taskables + house.slaves:
         t.runner = Rec(t)
 
+    gB = store.create("gB")
+    gB.value = sym.int("gB_t0", 0, 1) if guarded else 1
+
     def changeStamp(stamp):
         if stamp > 12:
             raise RuntimeError("run did not end by tick 12 (controller bids stop all at tick 5)")
         store.stamp = stamp
+        if not guarded:
+            pass
+        elif 1 <= stamp <= 4:
+            gB.value = sym.int("gB_t%d" % stamp, 0, 1)     # B's entry guard: fresh every tick
+        elif stamp == 5:
+            gB.value = 1        # concrete from here on: the store dump at the end of the run formats every value
     store.changeStamp = changeStamp
     sk = skedding.Skedder(name="s", period=1.0, houses=houses)
     sk.period = 1
@@ -122,11 +131,16 @@ def h_bids(sym, perm, vx=None, vy=None, tx=None, ty=None):
     # for every bid: the target's next run
     pending = {}      # target -> (verb control, bidder, stamp)
     inside = []       # stack of taskers currently inside send
+    failed_start = {}   # target -> True after a start whose entry conditions failed, until the next bid on it
     for e in EVENTS:
         kind = e[0]
         if kind == "begin":
             _, name, control, stamp, sweep = e
             inside.append(name)
+            if failed_start.get(name) and not sweep and name not in pending:
+                sym.cover("run-after-failed-start")
+                sym.check(control != START, "C04/failed-start-retried-without-a-new-bid",
+                          lambda: "target %s got START again at %s\n%s\n%s" % (name, stamp, EVENTS, text))
             if name in pending and not sweep:
                 want, bidder, bstamp = pending.pop(name)
                 sym.cover("bid-delivered")
@@ -144,10 +158,19 @@ def h_bids(sym, perm, vx=None, vy=None, tx=None, ty=None):
                 pending.pop(name)
         elif kind == "end":
             inside.pop()
+            _, name, control, st, sweep = e[:5]
+            if not sweep:
+                if control == START and st == STOP:
+                    failed_start[name] = True
+                    sym.cover("start-refused-by-entry-guard")
+                elif failed_start.get(name):
+                    sym.check(st == STOP, "C04/tasker-left-stopped-state-after-failed-start-without-a-bid",
+                              lambda: "target %s status %s\n%s\n%s" % (name, st, EVENTS, text))
         elif kind == "bid":
             _, bidder, frame, stamp, _ = e
             verb, target = bids[bidder]
             tname = bidder if target == "me" else target
+            failed_start.pop(tname, None)
             pending[tname] = (CTL[verb], bidder, stamp)    # the most recent bid wins
     return True
 
@@ -264,7 +287,13 @@ def obligations(tier):
         for (a, b, c) in [(1, 2, 0), (4, 1, 2), (1, 3, 1), (2, 1, 0), (4, 0, 1)]:
             out.append(Ob("fiats/%s-%s-%s" % (VERBS[a], VERBS[b], VERBS[c]), h_fiats, dict(f0=a, f1=b, f2=c), budget=300, covers=[],
                           bounds=dict(fiats=[VERBS[a], VERBS[b], VERBS[c]], guard_values="[0,1] per tick")))
-    else:
+    # a start refused by the entry guard leaves the tasker stopped: it is not re-sent START without a new bid
+    for perm in ((0, 4) if tier == "quick" else range(len(PERMS))):
+        for vx in ((0,) if tier == "quick" else (0, 4)):       # start / ready
+            out.append(Ob("guarded/perm%d/%s-B" % (perm, VERBS[vx]), h_bids, dict(perm=perm, vx=vx, vy=2, tx=1, ty=2, guarded=True),
+                          budget=600, covers=["bid-delivered"] + (["start-refused-by-entry-guard", "run-after-failed-start"] if vx == 0 else []),
+                          bounds=dict(order=PERMS[perm], bids=[(VERBS[vx], "B"), ("stop", "me")], bid_tick_X="[1,3]", guard_B="[0,1] fresh in ticks 0-4")))
+    if tier != "quick":
         for perm in range(len(PERMS)):
             for vx in range(5):
                 out.append(Ob("bids/perm%d/%s-any" % (perm, VERBS[vx]), h_bids, dict(perm=perm, vx=vx), budget=2400, covers=["bid-delivered"],
